@@ -348,6 +348,7 @@ pub fn generate(run_seed: u64, quick: bool) -> Scenario {
         sched: SchedSpec::RoundRobin,
         fuel: crate::eval::fuel_override().unwrap_or(FUEL),
         corrupt_events: corrupt_events as u32,
+        variants: vec![],
     }
 }
 
